@@ -165,6 +165,9 @@ def safe_callable_names(root: ast.Module) -> Collection[str]:
             nonreturn_children = []
             for child in node.body:
                 if core.is_blocking(child):
+                    if any(core.walk(child, (ast.Raise, ast.Assert))):
+                        nonreturn_children.append(child)  # Calling it may raise
+
                     break
 
                 nonreturn_children.append(child)
